@@ -205,7 +205,12 @@ class XExprEvaluator(ModelVisitor):
             self.val = None
         else:
             self.is_x = False
-            field.accept(self)
+            # Evaluate the selected element, not the array as a whole
+            s.subscript().accept(self)
+            
+    def visit_expr_indexed_fieldref(self, e):
+        # Resolve the field the reference denotes (eg arr[i].f)
+        e.get_target().accept(self)
             
     def visit_expr_in(self, e):
         e.lhs.accept(self)
